@@ -325,14 +325,15 @@ PROPS = {
         "runner": "Run08",
         "theorems": ["C08_integer_range_exact", "C08_integer_range_only_literals", "C08_empty_integer_range_rejected",
                      "C08_fraction_at_least", "C08_fraction_at_most", "C08_multiple_of_lcm_exact", "C08_multiple_of_exact",
-                     "C08_decimal_range_exact", "C08_empty_decimal_range_rejected"],
+                     "C08_decimal_range_exact", "C08_empty_decimal_range_rejected",
+                     "C08_integer_schema_decimal_bounds_exact", "C08_integer_schema_no_integer_rejected"],
         "rule": "integer bounds: all pairs in a window exhaustively plus magnitudes around powers of ten and i64 extremes, with every "
                 "combination of minimum/maximum/exclusive*; decimal bounds with up to three fractional digits and magnitudes up to "
                 "1e15 (beyond that the f64 carrying the bound is not the written decimal); literals: integers and decimals in and "
                 "around the interval with 0-4 extra fractional digits and trailing zeros; through the single-byte Matcher. "
                 "Model side: the regex ASTs of the model of numeric.rs decide each literal. Implementation-only: exact decimal "
                 "arithmetic decides membership. non-trivial = ranges with both accepted and rejected literals",
-        "trusted_base": ["modelled, not verified: parser/src/json/numeric.rs rx_int_range, lexi_x_to_9, lexi_0_to_x, lexi_range, "
+        "trusted_base": ["modelled, not verified: parser/src/json/numeric.rs rx_int_range, normalize_integer_bounds, lexi_x_to_9, lexi_0_to_x, lexi_range, "
                          "rx_float_range, Decimal::lcm (coq/Numeric.v, regex ASTs instead of regex strings; the regex text -> AST step "
                          "is derivre/regex-syntax, tied by the comparison through the Matcher)",
                          "json/compiler.rs number/integer -> regex plumbing and multipleOf (derivre's divisibility check) are covered by "
@@ -345,7 +346,9 @@ PROPS = {
                       "comparisons from which decimal ranges are built are exact for every digit string (trailing zeros, shorter and longer "
                       "than the bound); for every pair of optional decimal bounds, inclusive or exclusive, the decimal-range regex accepts a "
                       "plain decimal literal exactly when its value is inside, and is an error exactly for empty combinations; the "
-                      "multipleOf lcm and the u32 remainder arithmetic (variants read from the source) are exact or an error.",
+                      "multipleOf lcm and the u32 remainder arithmetic (variants read from the source) are exact or an error; "
+                      "integer schemas with fractional / exclusive bounds (normalize_integer_bounds, coq/IntBounds.v) accept an integer "
+                      "literal exactly when it lies inside the bounds as written and are an error exactly when no integer does.",
         "level_note": "Model hand-written from numeric.rs (regex ASTs instead of regex strings). The interaction of bounds with "
                       "multipleOf (intersection of the two regexes, multiple spellings of decimals) is checked by the exact-arithmetic "
                       "oracle on the implementation, not proved as one theorem.",
